@@ -283,3 +283,20 @@ Example C01_roundtrip_typed_desc_written_inhabited :
       (match rtt_hist_written with MAdd e :: _ => [e] | _ => [] end) = [ex_typed_written] /\
   ex_typed_written <> ex_typed_loop.
 Proof. split; [exact rtt_hist_parsed|]. split; [exact rtt_history_ok|]. split; [reflexivity|discriminate]. Qed.
+
+(* ---- the muxer half of the round trip IS the source: Muxer.WriteData — the table part regenerated in Gen/MuxGen.v
+   applied to the packetisation loop regenerated in Gen/WriteGen.v — returns the model's result and count, hands the
+   io.Writer the model's Write calls in order and leaves the model's state (the statement of C04_write_data_is_source,
+   quoted here because every theorem of this file is about the bytes write_data produces: where the first-packet
+   adaptation field goes, which packet carries the PES header, the stuffing) ---- *)
+Require Import Model.Psi Model.Desc Model.Muxer Gen.MuxGen Gen.WriteGen Proofs.MuxGenEq Proofs.WriteGenBase Proofs.WriteGenEq Proofs.WriteGenMux.
+Theorem C01_write_data_is_source : forall s d pb mb buf,
+  pa_res (snd (write_data s d)) <> Panic ->
+  exists s',
+    Muxer_WriteData_until_loop calc_descriptor_length calc_pmt_section_length g_write ge_get to_pat g_wpsi g_wpkt
+      (wd_ret_src s) (wd_rest_src s)
+      (@nil (list Z)) C_MpegTsPacketSize (ms_period s) mux_pm (ms_pm_updated s) (pmt_of s) (ms_pmt_updated s)
+      (ms_pat_version s) (ms_pmt_version s) (ms_pat_cc s) (ms_pmt_cc s) pb mb buf (ms_es s) (ms_retransmit s) d
+    = Some (s', flat_of (snd (write_data s d))) /\ mstate_eqv s' (fst (write_data s d)).
+Proof. exact write_data_is_source. Qed.
+Print Assumptions C01_write_data_is_source.
